@@ -157,6 +157,24 @@ func c09Transition(w *appx.World, n node, o appx.Op, bound int, st *report.Stats
 			return next, nil, fmt.Sprintf("op %s: a replica that saves its state at this commit holds different state afterwards\nnot saving: %s\nsaving:     %s", o, dA, dP)
 		}
 	}
+	// the replica that proposes the block: Tendermint asks only the proposer to
+	// prepare the proposal (here from a mempool that does not fit: the transaction
+	// twice, room for one) and every validator to process it; executing the block
+	// afterwards must not depend on having been asked
+	if o.Kind != "endblock" {
+		pp := appx.Clone(n.a)
+		tx := w.Tx(pp, o, n.nonce())
+		pp.PrepareProposal(abcitypes.RequestPrepareProposal{Txs: [][]byte{tx, tx}, MaxTxBytes: int64(len(tx))})
+		pp.ProcessProposal(abcitypes.RequestProcessProposal{Txs: [][]byte{tx}})
+		resP := w.Step(pp, o, n.nonce())
+		st.Count("proposer_replica_transitions", 1)
+		if !bytes.Equal(resA.Bytes, resP.Bytes) {
+			return next, nil, fmt.Sprintf("op %s: the replica that prepared and processed the proposal answers differently from one that only executes the block\nexecuting only: %v\nproposer:       %v", o, resA.Deliver, resP.Deliver)
+		}
+		if dA, dP := dumpNoMempool(a), dumpNoMempool(pp); dA != dP {
+			return next, nil, fmt.Sprintf("op %s: the replica that prepared and processed the proposal holds different state afterwards\nexecuting only: %s\nproposer:       %s", o, firstN(dA, 800), firstN(dP, 800))
+		}
+	}
 	// a replica in another process: restarted from the state saved just before this
 	// transition (real PersistToDisk + LoadShutterAppFromFile on the in-memory file system)
 	{
@@ -223,7 +241,7 @@ func c09() *report.Check {
 		Assumptions: []string{
 			"map iteration order is owned through a source rewrite of every range-over-map in app, keyper/shutterevents (regenerated from the current sources by cmd/rewrite); all permutations are offered, a superset of what the Go runtime produces",
 			"replicas are compared per transition from equal states (induction over the history)",
-			"process: at every transition a further replica is restarted from the state saved just before (real PersistToDisk / LoadShutterAppFromFile on the in-memory file system) and must answer and end up like the one that never stopped; seeds include chain ids with built-in fork overrides",
+			"proposer: at every transaction a further replica prepares (from a mempool that does not fit) and processes the proposal first and must answer and end up like one that only executes the block; process: at every transition a further replica is restarted from the state saved just before (real PersistToDisk / LoadShutterAppFromFile on the in-memory file system) and must answer and end up like the one that never stopped; seeds include chain ids with built-in fork overrides",
 			"mempool: along the long walk a further replica runs CheckTx (new and recheck) on every transaction before the block that contains it is executed; the others never run it",
 			"wall clock / save timing: at every block end a second replica saves its state (real PersistToDisk on the in-memory file system) while the first does not; both must stay identical",
 		},
